@@ -8,9 +8,10 @@
 #include "tjv.h"
 unsigned long tjv_hm_inits, tjv_hm_finals, tjv_hm_reinits;
 unsigned tjv_hm_upd, tjv_hm_open;
+unsigned long tjv_hm_finals_at_init;
 uint8_t tjv_hm_last4[4], tjv_hm_last1; int tjv_hm_have4, tjv_hm_have1;
 void tinyjambu_hmac_init(tinyjambu_hmac_state_t *state, const unsigned char *key, size_t keylen)
-{ (void)state; (void)key; (void)keylen; tjv_hm_inits++; tjv_hm_upd = 0; tjv_hm_open = 1; }
+{ (void)state; (void)key; (void)keylen; tjv_hm_inits++; tjv_hm_upd = 0; tjv_hm_open = 1; tjv_hm_finals_at_init = tjv_hm_finals; }
 void tinyjambu_hmac_reinit(tinyjambu_hmac_state_t *state, const unsigned char *key, size_t keylen)
 { (void)state; (void)key; (void)keylen; tjv_hm_reinits++; tjv_hm_upd = 0; tjv_hm_open = 1; }
 void tinyjambu_hmac_update(tinyjambu_hmac_state_t *state, const unsigned char *in, size_t inlen)
@@ -18,14 +19,33 @@ void tinyjambu_hmac_update(tinyjambu_hmac_state_t *state, const unsigned char *i
   (void)state;
   __CPROVER_assert(tjv_hm_open, "HMAC API: update on an initialised state");
   tjv_hm_upd++;
-  if (inlen == 4) { tjv_hm_last4[0] = in[0]; tjv_hm_last4[1] = in[1]; tjv_hm_last4[2] = in[2]; tjv_hm_last4[3] = in[3]; tjv_hm_have4 = 1; }
+#ifdef TJV_PBKDF2
+  /* PBKDF2: the second update after init is the block number; it must be INT32BE(index of this block) */
+  if (tjv_hm_upd == 2 && tjv_hm_finals_at_init == tjv_hm_finals) {
+    unsigned long i = tjv_hm_inits;
+    __CPROVER_assert(inlen == 4 && in[0] == (uint8_t)(i >> 24) && in[1] == (uint8_t)(i >> 16) && in[2] == (uint8_t)(i >> 8) && in[3] == (uint8_t)i,
+                     "C14: block i is derived from salt || INT32BE(i), i counted from 1");
+    tjv_hm_last4[0] = in[0]; tjv_hm_last4[1] = in[1]; tjv_hm_last4[2] = in[2]; tjv_hm_last4[3] = in[3]; tjv_hm_have4 = 1;
+  }
+#endif
   if (inlen == 1) { tjv_hm_last1 = in[0]; tjv_hm_have1 = 1; }
 }
 void tinyjambu_hmac_finalize(tinyjambu_hmac_state_t *state, const unsigned char *key, size_t keylen, unsigned char *out)
 {
   (void)state; (void)key; (void)keylen;
   __CPROVER_assert(tjv_hm_open, "HMAC API: finalize on an initialised state");
+#ifdef TJV_GHOST_OUT
+  /* the digest may land directly in the caller's unbounded output buffer: modelled at the ghost index only */
+  { extern size_t tjv_g_rel_to(const unsigned char *base); size_t g = tjv_g_rel_to(out);
+    __CPROVER_assert(__CPROVER_w_ok(out, 32), "C06: PRF output buffer has room for 32 bytes");
+    if (g < 32) out[g] = nondet_u8(); }
+#else
   for (int i = 0; i < 32; i++) out[i] = nondet_u8();
+#endif
   tjv_hm_finals++; tjv_hm_open = 0;
+#ifdef TJV_PBKDF2
+  { extern unsigned long tjv_count; unsigned long per = tjv_count ? tjv_count : 1;
+    __CPROVER_assert(tjv_hm_finals - tjv_hm_finals_at_init <= per, "C14: at most max(count,1) PRF evaluations per block"); }
+#endif
 }
 void tinyjambu_hmac_free(tinyjambu_hmac_state_t *state) { static const tinyjambu_hmac_state_t zero; if (state) *state = zero; tjv_hm_open = 0; }
